@@ -250,6 +250,22 @@ std::string roundTrip(const Case &c, std::string &observer, std::set<std::string
     BModel<L> m;
     buildFromCase(c, g, m);
     FileGuard f1{scratchFile(".bin")}, f2{scratchFile(".hand")};
+    // the output path may already hold a file (a writer replaces it): 1 = junk of a length that is no multiple of the
+    // record size, 2 = one well-formed record naming vertices 5 and 6, 3 = a longer file than the one to be written
+    if (long long pf = c.geti("prefill", 0)) {
+        std::string old;
+        if (pf == 1)
+            old = std::string(37, '\xAB');
+        else {
+            for (size_t k = 0; k < (pf == 2 ? 1 : m.e.size() + 3); ++k) {
+                le32(old, 5);
+                le32(old, 6);
+                Val<L>::le(old, L());
+            }
+        }
+        writeAll(f1.p, old);
+        tags.insert("output_path_holds_a_file");
+    }
     BT<G>::write(g, f1.p);
     std::string bytes = readAll(f1.p);
     size_t rec = 8 + Val<L>::size;
